@@ -147,6 +147,20 @@ m("E02", "C16", ENC, "        y_dec = np.empty_like(y, dtype=self._dtype)", "   
   note="decoded array uses the dtype of the classes (cannot hold a NaN / longer string sentinel)")
 m("E03", "C16,C09", ENC, "            self._dtype = np.append(self.classes, self.missing_label).dtype\n            self._le.fit(self.classes)", "            self._dtype = np.append(self.classes, self.missing_label).dtype\n            self._le.fit(list(self.classes)[::-1])",
   note="control: LabelEncoder sorts anyway (must NOT be caught)")
+# ---- batch F: density / cognitive stream strategies, query-by-committee, PWC, NIC
+DUS = "skactiveml/stream/_density_uncertainty.py"
+PWCF = "skactiveml/classifier/_parzen_window_classifier.py"
+m("F01", "C03", DUS, "        self.min_dist_ = tmp_min_dist\n        self.window_ = tmp_window\n", "        self.window_ = tmp_window\n", occ=1,
+  note="StreamDensityBasedAL.query does not restore min_dist_")
+m("F02", "C03,C10", DUS, "            if local_density_factor > 0:\n                queried_indice = self.budget_manager_.query_by_utility(", "            if local_density_factor >= 0:\n                queried_indice = self.budget_manager_.query_by_utility(", occ=1,
+  note="StreamDensityBasedAL.query asks the manager also for candidates without density gain (update still filters)")
+m("F03", "C03", DUS, "        t = copy(self.t_)\n", "        t = self.t_\n", occ=1, note="control: ints are immutable (must NOT be caught)")
+m("F04", "C03", DUS, "        self.t_x_ = tmp_t_x\n", "", occ=1, note="Cognitive query does not restore the recall time stamps")
+m("F05", "C10", DUS, "            elif self.force_full_budget:\n                new_candidates.append(np.nan)\n            self.t_ += 1", "            elif self.force_full_budget:\n                new_candidates.append(np.nan)\n                self.t_ += 1", occ=1,
+  note="Cognitive update counts only passing / padded candidates in t_ (differs from query for force_full_budget=False)")
+m("F06", "C12", PWCF, "                w=sample_weight,\n", "                w=None,\n", occ=1, note="PWC ignores sample weights (weights of LABELED samples matter: C12 pairs keep them... )")
+m("F07", "C13,C05", PWCF, "            self.metric_dict_ = self.metric_dict_.copy()", "            self.metric_dict_ = self.metric_dict_", occ=1,
+  note="PWC resolves gamma='mean' inside the caller's dict again (reverts fix)")
 def load_extra():
     p = os.path.join(os.path.dirname(__file__), "mutants_extra.json")
     if os.path.exists(p):
